@@ -381,10 +381,48 @@ def saturation_cases(tier):
     return cs
 
 
+def lowp_cases(tier):
+    """the lowp vec3 specialisation of convertLinearToSRGB is Ian Taylor's root approximation (the source the code cites):
+        s(x) = 0.662002687 x^(1/2) + 0.684122060 x^(1/4) - 0.323583601 x^(1/8) - 0.0225411470 x      per component, from that component only
+    decided: every lane is that formula of its own component (three nested square roots, the four published constants), and the formula's fixed points s(0) = 0 and
+    s(1) = 1 within 1e-6 (the constants sum to 1); the accuracy against the exact curve is the approximation's published property and is not re-derived"""
+    cs = []
+    vt = G.vec(3, 'float', 'lowp')
+    k = K('lowp_lin2srgb', [Par('o', vt, False), Par('c', vt)], '*o = convertLinearToSRGB(*c);', CFG)
+    CONST = (0.662002687, 0.684122060, 0.323583601, 0.0225411470)
+
+    def judge(ctx):
+        name = 'convertLinearToSRGB(vec3<float,lowp>)'
+        err = ctx.compile_error(k)
+        if err:
+            return [R.ob(name, 'existence', R.REFUTED, 'cannot be instantiated: ' + err, kernel=k.source())]
+        lanes = L.out_lanes(ctx, k, vt)
+        res = []
+        pc = P.PCtx()
+        f32 = lambda v: struct.unpack('f', struct.pack('f', v))[0]
+        c1, c2, c3, c4 = [S.const(32, f32(v)) for v in CONST]
+        for i in range(3):
+            x = S.lane('c', vt, i)
+            s1 = S.sqrt(x)
+            s2 = S.sqrt(s1)
+            s3 = S.sqrt(s2)
+            spec = c1 * s1 + c2 * s2 - c3 * s3 - c4 * x
+            st, detail = S.compare(lanes[i], spec.t, pc=pc, nan=False)
+            res.append(R.ob('%s[%d]' % (name, i), 'srgb_lowp', st, 'c1 x^(1/2) + c2 x^(1/4) - c3 x^(1/8) - c4 x with the published constants' if st == R.PROVED else detail,
+                            where=R.where_of(ctx.fn(k), lanes[i]) if st != R.PROVED else None, kernel=k.source()))
+        tot = Fraction(f32(CONST[0])) + Fraction(f32(CONST[1])) - Fraction(f32(CONST[2])) - Fraction(f32(CONST[3]))
+        ok = abs(tot - 1) < Fraction(1, 10 ** 6)
+        res.append(R.ob(name + '.fixed_point_1', 'srgb_lowp', R.PROVED if ok else R.REFUTED, 's(1) = c1 + c2 - c3 - c4 = %.9f' % float(tot), kernel=k.source()))
+        return res
+    cs.append(R.Case('convertLinearToSRGB(vec3<float,lowp>)', [k], judge))
+    return cs
+
+
 def cases(tier):
     cs = []
     cs += ycocg_cases(tier)
     cs += srgb_cases(tier)
+    cs += lowp_cases(tier)
     cs += saturation_cases(tier)
     from rules import c19_hsv
     cs += c19_hsv.hsv_cases(tier, CFG)
@@ -409,6 +447,6 @@ EXPLANATION = ('static: the colour-space functions are instantiated from /repo; 
                'thresholds), for the fixed points 0 and 1, for increasing segments and for the junction; saturation() rows sum to 1 for every s; luminosity uses the documented weights')
 ASSUMPTIONS = ['float operations read as exact real arithmetic; pow is the mathematical power function (pow(1, e) = 1, increasing in its base for e > 0)',
                'tolerances: 5e-5 relative between writer and reader constants (the published sRGB constants 12.92, 0.0031308, 0.04045, 1.055, 0.41666 carry 4-5 significant digits), 1e-6 at the fixed point 1',
-               'not decided: monotonicity inside the power segment beyond the sign of its parameters, numeric accuracy of the round trip, the lowp fast approximation of convertLinearToSRGB']
+               'not decided: monotonicity inside the power segment beyond the sign of its parameters, numeric accuracy of the round trip; the lowp fast approximation of convertLinearToSRGB is checked as the published formula, not for its accuracy']
 TRUSTED = ['clang/LLVM 14', 'tools/irtool.cc', 'laneflow normal forms', 'mpmath (junction values)']
 LEVEL = 'other'
